@@ -263,3 +263,43 @@ fn find_cutoff_first_negative_root() {
     kani::cover!(got == 3 && max_cutoff == 4);
     kani::cover!(got == 4);
 }
+
+// ---- grad_ll: whatever magnitude exp() takes — any value in [0, +inf], the range of the real function on the extended
+// reals — no term of the gradient is NaN for parameters inside the open domain.  (Says nothing about the VALUE of the
+// gradient, which needs ln / exp / lgamma and is not decided; added after the independent seeded change C20b rewrote the
+// two responsibilities as ratio / (1 + ratio), which is inf / inf once exp overflows at multiplicities of ~200.)
+fn exp_stub(_x: f64) -> f64 {
+    let r: f64 = kani::any();
+    kani::assume(r >= 0.0);
+    r
+}
+
+#[kani::proof]
+#[kani::unwind(7)]
+#[kani::stub(a, a_stub)]
+#[kani::stub(b, b_stub)]
+#[kani::stub(f64::exp, exp_stub)]
+fn grad_ll_never_nan() {
+    let ta: [f64; 5] = kani::any();
+    let tb: [f64; 5] = kani::any();
+    let mut i = 0;
+    while i < 5 {
+        kani::assume(ta[i].is_finite() && tb[i].is_finite());
+        i += 1;
+    }
+    unsafe {
+        TA = ta;
+        TB = tb;
+    }
+    let w0: f64 = kani::any();
+    let c: f64 = kani::any();
+    kani::assume(w0 >= 1e-9 && w0 <= 1.0 - 1e-9);
+    kani::assume(c >= 1.0 && c <= 1e9);
+    let count: f64 = kani::any();
+    kani::assume(count >= 0.0 && count <= 1e12);
+    let pars = [w0, c];
+    let counts = [count];
+    let g = grad_ll(&pars, &counts);
+    assert!(g.len() == 2);
+    assert!(!g[0].is_nan() && !g[1].is_nan());
+}
